@@ -17,7 +17,7 @@ class C14R : public Check
 public:
     const char *id() { return "C14"; }
     const char *opName(int k) { return mtOpName(k); }
-    int quickRuns() { return 64; }
+    int quickRuns() { return 800; }
     int recheckEvery() { return 5; }
     int quickSeconds() { return 90; }
     int thoroughSeconds() { return 900; }
